@@ -56,6 +56,13 @@ RULES = {
         "symbolically through clear/assign/move/push_back and counting loops): a clear/assign/move of one vector must be matched on "
         "its partner before the next push. Broken -> slot i of the size vector describes another array: format/clone/copy/serialize "
         "run over a wrong extent (heap overflow when a matrix is re-assigned a layout with fewer non-zeros).", 200),
+    "C20.index-array-write": (
+        "DESIGN clause 5: a Container-family function stores through an array held in _indices (directly, through a non-const accessor "
+        "returning _indices.at(K) such as col_ind()/row_ptr()/indices(), through a local pointer initialised from either, or by passing it to a "
+        "callee parameter with a mutable pointee) only if that array was allocated in this very function (typestate OWN{alloc} / slot just "
+        "re-allocated). Index arrays are shared by reference count with Layout/Weak/Shallow clones, layout() objects and matrices built from "
+        "them. Broken -> permuting / sorting / refilling one container silently changes the layout of its weak clones (their values no longer "
+        "belong to the stored positions).", 30),
     "C20.pool-release": (
         "MemoryPool::release_memory looks the address up, frees and erases the entry exactly when the counter is 1 and "
         "decrements it by one otherwise.", 4),
